@@ -78,7 +78,10 @@ func vfNodeIO(cfg vfIOCfg) {
 	}
 	vfIOStdout, vfIOStderr = nil, nil
 	for i := 0; i < attempts; i++ {
-		vfIOStdout = append(vfIOStdout, vfString("stdout", cfg.chunkLen))
+		so := vfString("stdout", cfg.chunkLen)
+		// the property quantifies over any bytes except NUL (a NUL cannot be put into the environment)
+		vfAssume(!strings.Contains(so, "\x00"))
+		vfIOStdout = append(vfIOStdout, so)
 		vfIOStderr = append(vfIOStderr, vfString("stderr", cfg.chunkLen))
 	}
 	step := dag.Step{Name: "s", ExecutorConfig: dag.ExecutorConfig{Type: "verifio"}, Dir: dir,
@@ -157,6 +160,7 @@ func VerifHarness_C12_big() { vfNodeIO(vfIOCfg{maxAttempts: 2, chunkLen: 10000, 
 // value (values containing '=', spaces, quotes included): real NewExecutionGraphForRetry.
 func VerifHarness_C11_retryrestore() {
 	val := vfString("value", 6)
+	vfAssume(!strings.Contains(val, "\x00")) // any bytes except NUL
 	m := &dag.SyncMap{}
 	m.Store("VFRESTORED", "VFRESTORED="+val)
 	s0 := dag.Step{Name: "s0", OutputVariables: m}
